@@ -245,7 +245,7 @@ def plan(tier, seed):
         for i in range(16):
             tasks.append({"task": "cpvgrid", "slice": i, "nslices": 16, "sample": 1.0})
         for i in range(16):
-            tasks.append({"task": "hyp", "examples": 40000})
+            tasks.append({"task": "hyp", "examples": 8000})
         tasks.append({"task": "rev"})
     return tasks
 
